@@ -112,3 +112,56 @@ Example ex_side_by_side_values :
   map (rmap snd) (model_outs kit_comb2 ex_c2_ops) =
   [OUnit; OUnit; OUnit; OItem (VA 7 0); OItem (VA 7 0); OItems [VA 3 0; VA 7 4; VA (-7) 0; VA 7 4; VA 3 0]].
 Proof. vm_compute. reflexivity. Qed.
+
+(** Min over (key, id) — elements that compare equal are distinguishable: every answer is the RIGHTMOST minimum
+    (ask 0 3 = (3, 2), not (3, 1)); after set(0, (3, 9)) the prefix [0..2] still answers (3, 2) *)
+Definition ex_mk_ops : list (op (Z * Z) unit pred) :=
+  [OFromSlice [(5, 0); (3, 1); (3, 2); (7, 3)]%Z; OAsk 0 3; OAsk 0 1; OSet 0 (3, 9)%Z; OAsk 0 2; OAsk 0 0;
+   OLowerBound 0 (PFst (PLe 3%Z)); OLowerBoundRev 3 (PFst (PLe 3%Z)); ODebug].
+Example ex_minkey_run :
+  model_outs kit_minkey ex_mk_ops =
+  [OUnit; OItem (3, 2); OItem (3, 1); OUnit; OItem (3, 2); OItem (3, 9);
+   OBound (Some 0%nat) [(3, 2); (3, 1); (3, 9)];
+   OBound (Some 2%nat) [(3, 2); (3, 2); (7, 3); (3, 2)];
+   OItems [(3, 9); (3, 1); (3, 2); (7, 3)]]%Z.
+Proof. vm_compute. reflexivity. Qed.
+Example ex_minkey_history :
+  Forall2 (out_match (k_obs kit_minkey) (k_vmerge kit_minkey) (k_pv kit_minkey) (k_obs kit_minkey (k_dflt kit_minkey)))
+          (model_outs kit_minkey ex_mk_ops) (spec_outs kit_minkey ex_mk_ops).
+Proof. exact (c01_kit_history _ _ _ kit_minkey no_pending c01_minkey_lawful ex_mk_ops). Qed.
+(** the hypothesis of c01_key_tie_right has instances with different ids *)
+Example ex_key_tie : kmin_merge (3, 1)%Z (3, 2)%Z = (3, 2)%Z /\ kmax_merge (3, 1)%Z (3, 2)%Z = (3, 2)%Z.
+Proof. exact (c01_key_tie_right (3, 1)%Z (3, 2)%Z eq_refl). Qed.
+(** ... and the two zeros of f64: min(0.0, -0.0) = -0.0, min(-0.0, 0.0) = 0.0 *)
+Example ex_f64_zeros :
+  model_outs kit_minf [OFromSlice [(0, 0); (0, 1)]%Z; OAsk 0 1; OSet 1 (0, 0)%Z; OSet 0 (0, 1)%Z; OAsk 0 1] =
+  [OUnit; OItem (0, 1); OUnit; OUnit; OItem (0, 0)]%Z.
+Proof. vm_compute. reflexivity. Qed.
+
+(** MinAdd over (key, id): range adds create a tie (keys 5 3 3 6: rightmost minimum (3, 2)) and destroy it again *)
+Definition ex_ka_ops : list (op kvadd (Z * Z) pred) :=
+  [OFromIter [kva_new (5, 0); kva_new (3, 1); kva_new (4, 2); kva_new (7, 3)]%Z; OModify 2 3 (-1, 0)%Z; OAsk 0 3;
+   OModify 0 1 (-2, 0)%Z; OAsk 0 3; OAsk 2 3; ODebug].
+Example ex_minaddkey_run :
+  model_outs kit_minaddkey ex_ka_ops =
+  [OUnit; OUnit; OItem (KVA (3, 2) (0, 0)); OUnit; OItem (KVA (1, 1) (0, 0)); OItem (KVA (3, 2) (-1, 0));
+   OItems [KVA (3, 0) (-2, 0); KVA (1, 1) (-2, 0); KVA (3, 2) (-1, 0); KVA (6, 3) (-1, 0)]]%Z.
+Proof. vm_compute. reflexivity. Qed.
+Example ex_minaddkey_history :
+  Forall2 (out_match (k_obs kit_minaddkey) (k_vmerge kit_minaddkey) (k_pv kit_minaddkey) (k_obs kit_minaddkey (k_dflt kit_minaddkey)))
+          (model_outs kit_minaddkey ex_ka_ops) (spec_outs kit_minaddkey ex_ka_ops).
+Proof. exact (c01_kit_history _ _ _ kit_minaddkey kva_pending c01_minaddkey_lawful ex_ka_ops). Qed.
+
+(** Sum over strings: the operands are concatenated left to right *)
+Example ex_sumcat_run :
+  model_outs kit_sumcat [OFromSlice [[97]; [98]; [99]]%Z; OAsk 0 2; OSet 1 [100; 101]%Z; OAsk 1 2; OAsk 0 2] =
+  [OUnit; OItem [97; 98; 99]; OUnit; OItem [100; 101; 99]; OItem [97; 100; 101; 99]]%Z.
+Proof. vm_compute. reflexivity. Qed.
+
+(** Combinator<Concat, Concat>: both components keep their own order *)
+Example ex_combcat_run :
+  map (fun o => match o with OItem x => (List.concat (cc_parts (fst x)), List.concat (cc_parts (snd x))) | _ => ([], []) end)
+      (model_outs kit_combcat [OFromSlice [(cc_new sa, cc_new sb); (cc_new sb, cc_new sc); (cc_new sc, cc_new sa)];
+                               OModify 1 2 (CAppend sa); OAsk 0 2; OAsk 1 2]) =
+  [([], []); ([], []); (sa ++ sb ++ sa ++ sc ++ sa, sb ++ sc ++ sa ++ sa ++ sa); (sb ++ sa ++ sc ++ sa, sc ++ sa ++ sa ++ sa)].
+Proof. vm_compute. reflexivity. Qed.
